@@ -10,6 +10,9 @@ CLAIMED = {
 CLAIMED['C17'] = dict(ref='5.17', text='The real __lt__/__eq__ and the interpreted functools.total_ordering derivations are explored on symbolic members ranging over the whole installed TlsVersion table; trichotomy, transitivity over triples, hash consistency, consistency of <=,>,>= and the stated chain are discharged by z3 for every pair/triple at once.',
                 note='TlsVersion table taken as installed; attrs hash assumed to be a function of the member; pyvc and z3 trusted.',
                 technique='contract-based deductive verification: order axioms as postconditions over symbolic enum members, real source interpreted, z3')
+CLAIMED['C02'] = dict(ref='5.2', text='Clause K1 for every binary-layer parsable class: the real _parse is explored on an arbitrary symbolic buffer; every implicit Python exception site (subscripts, dict lookups, Enum(value), attrs validators, struct, codecs, next()) is a fork, and on every path the escaping exception is one of the four parse errors. Nested parsables are used through their own K1/K2 clauses (assume-guarantee), primitives and containers through verified contracts. Vectors of variable-size items are explored up to two items (reported as bounded, not counted).',
+                note='externals (asn1crypto, cryptodatahub key/stores, ipaddress, codecs) enter with assumed raise-sets listed in the evidence; text-layer classes are not covered; pyvc and z3 trusted.',
+                technique='contract-based deductive verification: exception-set postcondition K1 over symbolic execution of the real source with sidecar contracts, z3')
 PENDING = {}
 NA = {
     'C18': 'relational property over RFC text grammars; every code path is ParserText scanning loops, attrs reflection in FieldValueMultiple, dateutil/urllib3/json: no contract within reach of the installed SMT back ends expresses or decides it (DESIGN.md 5.18)',
